@@ -9,7 +9,7 @@ from harness import gridprobes as G
 
 PROP = "C13"
 TARGETS = ["IbicusModel.Props.C13", "IbicusModel.Lemmas.GenGridLoops"]
-GEN = ["GridDispatch", "GridLoops"]
+GEN = ["GridLoops"]
 
 ERRNAME = G.ERRNAME
 
@@ -33,8 +33,10 @@ def check_failsafe_on(label, r, clean, S, cells, out_T, problems, case):
             problems.append((f"{label} failsafe=True: non-failing cell {c} differs from the run in which nothing failed ({what})", case))
 
 
-def check_failsafe_off(label, r, clean, S_classes_in_order, serial, problems, case):
-    """failsafe=False: S empty -> the clean array; otherwise an exception (serial: of the first failing cell, row-major)"""
+def check_failsafe_off(label, r, clean, S_classes_in_order, serial, problems, case, also=()):
+    """failsafe=False: S empty -> the clean array; otherwise an exception (serial: of the first failing cell, row-major).
+    also: further classes accepted from a pool run (MaybeEncodingError, which Python's pool substitutes for an exception object
+    that it cannot send to the parent — the property asks for 'an exception and no array', not for a class)"""
     if not S_classes_in_order:
         if r[0] != "ok" or not G.same(r[1], clean):
             problems.append((f"{label} failsafe=False, nothing fails: result differs from the clean run ({r[0]})", case))
@@ -44,8 +46,237 @@ def check_failsafe_off(label, r, clean, S_classes_in_order, serial, problems, ca
         return
     if serial and r[1] != S_classes_in_order[0]:
         problems.append((f"{label} failsafe=False: raised {r[1]}, the first failing cell in row-major order raises {S_classes_in_order[0]}", case))
-    if not serial and r[1] not in S_classes_in_order:
+    if not serial and r[1] not in S_classes_in_order and r[1] not in also:
         problems.append((f"{label} failsafe=False: raised {r[1]}, which no failing cell raises ({sorted(set(S_classes_in_order))})", case))
+
+
+# ---------------------------------------------------------------------------------------------------------------------------
+# round 6.  Quantifier parts covered here:
+#   * "configurations": the FORM in which obs / cm_hist / cm_future reach `apply` — every dtype kind the input contract accepts
+#     (unsigned and signed integers of all widths, bool, float32/float64 mixed across the three arrays), masked arrays (with and
+#     without masked entries; a masked entry in a cell IS a built-in failure: it becomes NaN and the fit rejects it) and
+#     non-contiguous memory layouts.  The property's "NaN for that whole cell" needs an output that can hold NaN whatever came in.
+#   * "failures raised by a user-defined debiaser" x "serial and parallel with several process counts": the exception OBJECT
+#     (not only its class / message): objects that pickle.dumps cannot serialise (class local to the raising function, a lambda or
+#     a lock among the args).  failsafe=True must contain them in a pool exactly as in the serial loop.
+#     (Objects that serialise but cannot be REBUILT in the parent — e.g. two required constructor arguments — make CPython's own
+#     pool hang for ever with failsafe=False; they are left out on purpose.)
+UNSIGNED = ("uint8", "uint16", "uint32", "uint64")
+SIGNED = ("int8", "int16", "int32", "int64")
+FLOATS = ("float64", "float32")
+NAMES3 = ("obs", "hist", "fut")
+
+
+def plain(a):
+    """what the input contract (C14: conversions_int / conversions_masked) turns an accepted array into, computed independently:
+    non-float dtype -> float64, masked entries -> NaN, a plain ndarray"""
+    b = a if np.issubdtype(a.dtype, np.floating) else a.astype(float)
+    return np.ascontiguousarray(b.filled(np.nan) if isinstance(b, np.ma.MaskedArray) else b)
+
+
+def dress(values, form, layout="C", mask=None):
+    """the logical values in the given form ('<dtype>' | 'masked:<dtype>') and memory layout (plain arrays only)"""
+    x = np.asarray(values).astype(form.split(":")[-1])
+    if form.startswith("masked:"):
+        return np.ma.masked_array(x, mask=(np.ma.nomask if mask is None else np.asarray(mask, dtype=bool).reshape(x.shape)))
+    return G.relayout(x, layout)
+
+
+def pack_forms(arrs, forms, layouts, prefix=""):
+    """self-contained, JSON-able record of three dressed arrays (values of the underlying data + masks)"""
+    d = G.pack(*[np.ascontiguousarray(np.ma.getdata(a)) for a in arrs], prefix)
+    d[prefix + "masks"] = {n: ([bool(v) for v in np.ma.getmaskarray(a).ravel()] if (isinstance(a, np.ma.MaskedArray) and a.mask is not np.ma.nomask) else None)
+                           for n, a in zip(NAMES3, arrs)}
+    d["forms"], d["layouts"] = list(forms), list(layouts)
+    return d
+
+
+def load_arrays(fi, prefix=""):
+    """the three arrays of a replay record, dressed as recorded (plain float arrays when no forms were recorded)"""
+    arrs = list(G.unpack(fi, prefix))
+    if fi.get("forms"):
+        masks = fi.get(prefix + "masks") or {}
+        arrs = [dress(a, form, lay, masks.get(n)) for a, n, form, lay in zip(arrs, NAMES3, fi["forms"], fi.get("layouts") or ["C"] * 3)]
+    return arrs
+
+
+def form_classes(rng, kind, real=False):
+    """one (obs, cm_hist, cm_future) triple of forms per CLASS of input form; the concrete dtypes are drawn.
+    real=True: temperature-like data (values ~250..320: no 8-bit integers, no bool)"""
+    uns, sig = (UNSIGNED[1:], SIGNED[1:]) if real else (UNSIGNED, SIGNED)
+    anyd = uns + sig + FLOATS
+    drv = 0 if kind == "dc" else 2  # the array whose first element carries the raise-marker (a number up to 99: not bool)
+    out = {}
+    t = [rng.choice(anyd) for _ in range(3)]
+    t[2] = rng.choice(uns)
+    out["unsigned-integer cm_future"] = t
+    t = [rng.choice(anyd) for _ in range(3)]
+    t[2] = rng.choice(sig)
+    out["signed-integer cm_future"] = t
+    out["all three integer"] = [rng.choice(uns + sig) for _ in range(3)]
+    f = rng.choice(FLOATS)
+    t = [f, f, f]
+    t[rng.randrange(3)] = FLOATS[1 - FLOATS.index(f)]
+    out["mixed float widths"] = t
+    t = [("masked:" if rng.random() < 0.6 else "") + rng.choice(anyd) for _ in range(3)]
+    t[2] = "masked:" + rng.choice(anyd)
+    out["masked arrays"] = t
+    if not real:
+        t = [rng.choice(anyd) for _ in range(3)]
+        for k in rng.sample([k for k in range(3) if k != drv], rng.randint(1, 2)):
+            t[k] = "bool"
+        out["boolean"] = t
+    return out
+
+
+def input_forms_and_exception_objects(tier, res, boost, problems):
+    rng = random.Random(C.seed() * 15485863 + 1306)  # own stream
+    quick = tier == "quick" and not boost
+    forms_seen, objs_seen = {}, {}
+    deferred = []  # reports about the reference run itself: listed after the violations of the failsafe clauses
+
+    def pick_subsets(cells):
+        allsub = list(G.subsets(cells))
+        if tier != "quick" and len(cells) <= 4:
+            return allsub[1:]
+        mid = [s_ for s_ in allsub if 1 < len(s_) < len(cells)]
+        more = 0 if quick else 3 if tier == "quick" else 8  # quick tier after a broken tie: a wider, still bounded search
+        return [(rng.choice(cells),)] + ([rng.choice(mid)] if mid else []) + [tuple(cells)] + rng.sample(allsub[1:-1], min(more, len(allsub) - 2))
+
+    def judge(deb_factory, arrs, clean, S, cells, out_T, classes, procs, pcase, label0="", also=(), **kw):
+        for failsafe in (True, False):
+            runs = [("serial", True, G.run_apply(deb_factory(), *arrs, failsafe=failsafe, **kw))]
+            runs += [(f"parallel/{p or 'default'}", False, G.run_apply(deb_factory(), *arrs, parallel=True, nproc=p, failsafe=failsafe, **kw)) for p in procs]
+            for label, serial, r in runs:
+                if failsafe:
+                    check_failsafe_on(label0 + label, r, clean, set(S), cells, out_T, problems, pcase)
+                else:
+                    check_failsafe_off(label0 + label, r, clean, classes, serial, problems, pcase, also=also)
+
+    # ---- (a) user-defined failures, every class of input form, both probes
+    for kind in ("deb", "dc"):
+        for fclass, forms in form_classes(rng, kind).items():
+            nx, ny = rng.choice([(2, 2), (1, 3), (3, 1), (2, 3)] if quick else [(2, 2), (2, 3), (1, 3)])
+            cells = [(i, j) for i in range(nx) for j in range(ny)]
+            nprs = np.random.RandomState(rng.randint(0, 2**31 - 1))
+            To, Th, Tf = rng.sample(range(1, 6), 3)
+            base = [G.rand_data(nprs, T, nx, ny, np.float64) for T in (To, Th, Tf)]
+            layouts = [rng.choice(G.LAYOUTS) for _ in range(3)]
+            masks = [(np.zeros(b.shape, dtype=bool) if rng.random() < 0.5 else None) for b in base]  # an all-False mask array or np.ma.nomask
+            mk = lambda vals: [dress(v, f_, l_, m_) for v, f_, l_, m_ in zip(vals, forms, layouts, masks)]  # noqa: E731
+            arrs0 = mk(base)
+            out_T = To if kind == "dc" else Tf
+            case0 = dict(what="user-defined/" + kind, kind=kind, nx=nx, ny=ny, To=To, Th=Th, Tf=Tf, form_class=fclass,
+                         forms=list(forms), layouts=layouts, seed=C.seed())
+            clean_r = G.run_apply(G.make(kind), *arrs0)
+            if clean_r[0] != "ok":
+                deferred.append((f"input form '{fclass}' {forms}: the run in which nothing fails raised {clean_r[1]}: {clean_r[2]}",
+                                 {**case0, "S": [], **pack_forms(arrs0, forms, layouts), **pack_forms(arrs0, forms, layouts, "clean_")}))
+                continue
+            for nsub, S in enumerate(pick_subsets(cells)):
+                vals = [b.copy() for b in base]
+                marks = {c: G.ERR_CYCLE[(n + nsub) % len(G.ERR_CYCLE)] for n, c in enumerate(S)}
+                for c, m in marks.items():
+                    vals[0 if kind == "dc" else 2][0, c[0], c[1]] = m
+                arrs = mk(vals)
+                classes = [ERRNAME[marks[c]] for c in cells if c in marks]
+                procs = [rng.choice((1, 2, 3))] if quick else sorted(rng.sample((1, 2, 3), 2))
+                case = {**case0, "S": [list(c) for c in S], "markers": [marks[c] for c in S], "nprocs": procs}
+                pcase = {**case, **pack_forms(arrs, forms, layouts), **pack_forms(arrs0, forms, layouts, "clean_")}
+                judge(lambda: G.make(kind), arrs, clean_r[1], S, cells, out_T, classes, procs, pcase, label0=f"input form '{fclass}' {tuple(forms)}: ")
+                forms_seen[fclass] = forms_seen.get(fclass, 0) + 1
+                res.count(("form", kind, fclass, tuple(forms), nx, ny, S), True, sample={**case, "clean_dtype": str(clean_r[1].dtype)} if nsub == 0 and kind == "deb" else None)
+
+    # ---- (b) built-in failures under the same classes of form: NaN / inf planted in a float array, or an entry of a cell MASKED
+    #      (the contract fills it with NaN) -> scipy's fit rejects the cell (ground truth: scipy.stats.norm.fit on the converted column)
+    debs = G.real_debiasers()
+    plans = [("QuantileMapping", "obs", "nan", "unsigned-integer cm_future"), ("QuantileMapping", "obs", "masked", "masked arrays"),
+             ("QuantileMapping", "hist", "inf", "signed-integer cm_future"), ("ECDFM", "hist", "masked", "masked arrays"),
+             ("ScaledDistributionMapping", "obs", "nan", "unsigned-integer cm_future"), ("QuantileDeltaMapping", "hist", "nan", "mixed float widths")]
+    for name, where, bad, fclass in (plans[:3] if quick else plans):
+        forms = form_classes(rng, "deb", real=True)[fclass]
+        w = NAMES3.index(where)
+        forms[w] = ("masked:" if bad == "masked" else "") + rng.choice(FLOATS)  # the contaminated array must be able to carry the contamination
+        nx, ny = (2, 2)
+        cells = [(i, j) for i in range(nx) for j in range(ny)]
+        nprs = np.random.RandomState(rng.randint(0, 2**31 - 1))
+        T = rng.randint(25, 40)
+        base = [np.round(G.tas_grid(nprs, T + d, nx, ny, m), 2) for d, m in ((0, 283), (3, 285), (5, 287))]
+        layouts = [rng.choice(G.LAYOUTS) for _ in range(3)]
+        arrs0 = [dress(v, f_, l_, None) for v, f_, l_ in zip(base, forms, layouts)]
+        case0 = dict(what="builtin/" + name, kind="deb", nx=nx, ny=ny, T=T, form_class=fclass, forms=list(forms), layouts=layouts, seed=C.seed())
+        clean_r = G.run_apply(debs[name](), *arrs0)
+        if clean_r[0] != "ok":
+            deferred.append((f"{name}, input form '{fclass}' {forms}: the run in which nothing fails raised {clean_r[1]}: {clean_r[2]}",
+                             {**case0, "S": [], **pack_forms(arrs0, forms, layouts), **pack_forms(arrs0, forms, layouts, "clean_")}))
+            continue
+        for S in pick_subsets(cells):
+            vals = [b.copy() for b in base]
+            mask = np.zeros(base[w].shape, dtype=bool)
+            for c in S:
+                t_ = rng.randrange(base[w].shape[0])
+                if bad == "masked":
+                    mask[t_, c[0], c[1]] = True
+                else:
+                    vals[w][t_, c[0], c[1]] = float(bad)
+            arrs = [dress(v, f_, l_, (mask if (k == w and bad == "masked") else None)) for k, (v, f_, l_) in enumerate(zip(vals, forms, layouts))]
+            conv = [plain(a) for a in arrs]
+            must = {c: G.fit_rejects(conv[w][:, c[0], c[1]]) for c in S}
+            _, errs = G.stacked(debs[name](), *conv, conv[2].shape[0], conv[2].dtype)
+            procs = [2] if quick else sorted(rng.sample((1, 2, 3), 2))
+            case = {**case0, "planted": f"{bad} in {where}", "S": [list(c) for c in S], "nprocs": procs}
+            pcase = {**case, **pack_forms(arrs, forms, layouts), **pack_forms(arrs0, forms, layouts, "clean_")}
+            if where not in G.FITTED.get(name, ()) or not all(must.values()):
+                if set(errs) != set(S):
+                    res.notes.append(f"{name} form '{fclass}': planted {sorted(S)}, raising {sorted(errs)} — case skipped")
+                    continue
+                classes = [type(errs[c]).__name__ for c in cells if c in errs]
+            else:
+                classes = case["expected_classes"] = pcase["expected_classes"] = [must[c] for c in cells if c in must]
+                silent = sorted(set(S) - set(errs))
+                if silent:
+                    problems.append((f"{name}: location {silent[0]} must fail (scipy.stats.norm.fit rejects its {where} series with {must[silent[0]]}) but "
+                                     f"apply_location on the cell alone returned a result", pcase))
+            judge(debs[name], arrs, clean_r[1], S, cells, conv[2].shape[0], classes, procs, pcase, label0=f"{name}, input form '{fclass}' {tuple(forms)}: ")
+            forms_seen[fclass + " (built-in failure)"] = forms_seen.get(fclass + " (built-in failure)", 0) + 1
+            res.count(("form-builtin", name, fclass, tuple(forms), S, bad), True, sample={**case, "clean_dtype": str(clean_r[1].dtype)} if len(S) == 1 else None)
+
+    # ---- (c) exception objects that cannot be pickled, alone, mixed with ordinary ones, and at every cell
+    for kind in ("deb", "dc"):
+        nx, ny = rng.choice([(2, 2), (1, 3), (2, 3), (3, 1)])
+        cells = [(i, j) for i in range(nx) for j in range(ny)]
+        nprs = np.random.RandomState(rng.randint(0, 2**31 - 1))
+        To, Th, Tf = rng.sample(range(1, 6), 3)
+        dtype = rng.choice([np.float64, np.float32])
+        base = [G.rand_data(nprs, T, nx, ny, dtype) for T in (To, Th, Tf)]
+        out_T = To if kind == "dc" else Tf
+        clean_r = G.run_apply(G.make(kind), *base)
+        if clean_r[0] != "ok":
+            problems.append((f"clean run of the probe raised {clean_r[1]}: {clean_r[2]}", {"kind": kind, "nx": nx, "ny": ny}))
+            continue
+        plans_c = [((rng.choice(cells),), (m,)) for m in G.UNPICKLABLE]
+        mixc = tuple(sorted(rng.sample(cells, min(len(cells), 3))))
+        plans_c.append((mixc, tuple(rng.sample([G.M_ERR, rng.choice(G.UNPICKLABLE), G.M_ASSERT], len(mixc)))))
+        plans_c.append((tuple(cells), tuple(G.UNPICKLABLE[(k + rng.randrange(3)) % 3] for k in range(len(cells)))))
+        for S, ms in plans_c:
+            arrs = [b.copy() for b in base]
+            marks = dict(zip(S, ms))
+            for c, m in marks.items():
+                arrs[0 if kind == "dc" else 2][0, c[0], c[1]] = m
+                objs_seen[G.ERRSHAPE[m]] = objs_seen.get(G.ERRSHAPE[m], 0) + 1
+            classes = [ERRNAME[marks[c]] for c in cells if c in marks]
+            procs = ([rng.choice((1, 2, 3))] + ([None] if len(S) == len(cells) else [])) if quick else [1, 2, 3, None]
+            case = dict(what="user-defined/" + kind, kind=kind, nx=nx, ny=ny, To=To, Th=Th, Tf=Tf, dtype=str(np.dtype(dtype)), S=[list(c) for c in S],
+                        markers=list(ms), exception_shapes=[G.ERRSHAPE[m] for m in ms], nprocs=procs, accept_from_pool=["MaybeEncodingError"], seed=C.seed())
+            pcase = {**case, **G.pack(*arrs), **G.pack(*base, "clean_")}
+            judge(lambda: G.make(kind), arrs, clean_r[1], S, cells, out_T, classes, procs, pcase,
+                  label0=("unpicklable exception object: " if all(m in G.UNPICKLABLE for m in ms) else
+                          "unpicklable among ordinary exception objects: " if any(m in G.UNPICKLABLE for m in ms) else ""),
+                  also=("MaybeEncodingError",))
+            res.count(("exc-object", kind, nx, ny, S, ms), True, sample=case if len(S) == 1 and ms[0] == G.M_LOCALCLS else None)
+    problems.extend(deferred)
+    res.extra["input_form_classes_run"] = forms_seen
+    res.extra["unpicklable_exception_objects_raised"] = objs_seen
 
 
 def run(tier, res, force_search=False):
@@ -53,7 +284,9 @@ def run(tier, res, force_search=False):
     res.rule = ("user-defined failure: EVERY subset S of the cells of a small grid (2x2 quick, 2x3 and 2x2 thorough) gets a raise-marker, for the bare Debiaser "
                 "subclass and the DeltaChange probe, failsafe on/off, serial and nr_processes in {1,2,3}; built-in failure: NaN/inf planted in the cells of S makes "
                 "the real debiaser's scipy fit / quantile call raise (verified per cell by calling apply_location alone). non-trivial = S non-empty; "
-                "distinct = distinct (debiaser, grid, S, failsafe, contamination)")
+                "distinct = distinct (debiaser, grid, S, failsafe, contamination). Input forms: every class of accepted array form (unsigned / signed integer cm_future, "
+                "all-integer, bool, mixed float widths, masked arrays incl. masked entries as the built-in failure, non-contiguous layouts; concrete dtypes drawn) with "
+                "user-defined and built-in failures; exception objects that pickle cannot serialise (local class, lambda / lock among the args) alone, mixed, at every cell")
     res.trusted = C.BASE_TRUSTED + [
         "multiprocessing.Pool.starmap is modelled by Model.Grid.poolRun/starmap: the first *completed* raising task ends the map with its exception; which one that is "
         "depends on the schedule, so for parallel runs the harness only requires the exception class to be one a failing cell raises",
@@ -71,8 +304,11 @@ def run(tier, res, force_search=False):
         "abstract, so a handler that inspects the exception cannot be exhibited; logging; state that a failing location leaves OUTSIDE the arguments of the model "
         "(e.g. a cache on a helper object filled while iterating) — the logic part is modelled as instance state: failsafe_isolates_chunked / _stateful_serial assume "
         "PureSt (also on failure), Example.damaging shows the failure mode, and the running-window failing-subset runs decide it for the real debiasers",
+        "input forms: the reference for 'which cells fail' is computed on the arrays as the input contract converts them (non-float -> float64, masked -> NaN: "
+        "Props.C14 conversions_int / conversions_masked), independently of the code under test; under a pool with failsafe=False an exception object that cannot "
+        "be pickled surfaces as multiprocessing.pool.MaybeEncodingError (CPython) — accepted, the property asks for an exception and no array",
         "tier A: the catch wrapper's statements (caught class Exception, scalar np.nan, bare raise) and the failsafe keyword at all four call sites are regenerated "
-        "from the source (Gen/GridDispatch.lean = Model/GridDispatch.lean)",
+        "from the source with names resolved to roles (Gen/GridLoops.lean = Model/GridLoops.lean, denotation = runCatch: Props.C13.catch_wrapper_denotes)",
     ]
     lean_ok = C.lean_phase(res, PROP, GEN, TARGETS)
     problems, lines, expect, par_expect = [], [], [], []
@@ -387,6 +623,14 @@ def run(tier, res, force_search=False):
     res.extra["builtin_failures_observed"] = {k: sorted(v)[:3] for k, v in raising_seen.items()}
     res.extra["start_method"] = G.start_method()
 
+    # ---- round 6: forms of the three input arrays (dtype kinds, mixed dtypes, masked arrays, memory layouts) and exception objects
+    #      that cannot cross the pool's result pipe — own PRNG stream, nothing above shifts
+    try:
+        input_forms_and_exception_objects(tier, res, boost, problems)
+    except Exception as ex:  # noqa: BLE001  (a defect of the generator must not hide the verdict of the sections above)
+        res.notes.append(f"input-forms section aborted: {type(ex).__name__}: {G.safe_str(ex)}")
+        raise
+
     # ---- verdict
     seen = set()
     for p, case in problems:
@@ -407,8 +651,8 @@ def replay(data):
     if not fi or "obs" not in fi or "clean_obs" not in fi:
         print("replay: no failing input recorded (a proof obligation / the correspondence broke):", str(data.get("broken"))[:300])
         return 2
-    obs, hist, fut = G.unpack(fi)
-    obs0, hist0, fut0 = G.unpack(fi, "clean_")
+    obs, hist, fut = load_arrays(fi)
+    obs0, hist0, fut0 = load_arrays(fi, "clean_")
     deb = G.debiaser_for(fi)
     nx, ny = fi["nx"], fi["ny"]
     cells = [(i, j) for i in range(nx) for j in range(ny)]
@@ -420,7 +664,8 @@ def replay(data):
     if clean_r[0] != "ok":
         print("REPRODUCED: the clean run raises", clean_r[1:])
         return 1
-    _, errs = G.stacked(fresh, obs, hist, fut, out_T, fut.dtype, **kw)
+    conv = [plain(a) for a in (obs, hist, fut)]  # per-cell reference on what the input contract hands to the locations
+    _, errs = G.stacked(fresh, *conv, out_T, conv[2].dtype, **kw)
     classes = [type(errs[c]).__name__ for c in cells if c in errs]
     problems = []
     failing = set(errs)
@@ -438,7 +683,7 @@ def replay(data):
             if failsafe:
                 check_failsafe_on(label, r, clean_r[1], failing, cells, out_T, problems, case)
             else:
-                check_failsafe_off(label, r, clean_r[1], classes, serial, problems, case)
+                check_failsafe_off(label, r, clean_r[1], classes, serial, problems, case, also=tuple(fi.get("accept_from_pool") or ()))
     for p, _ in problems:
         print("REPRODUCED:", p)
     if not problems:
